@@ -21,3 +21,26 @@ func verifLemma_C24_take_count(c b6.UntypedCollection, n int) {
 	it, isTake := t.Begin().(*takeCollection)
 	verifrt.Assert(isTake && it.r == t.n, "iterator-budget-equals-n")
 }
+
+// C24 (bounded shapes): top(c, n) keeps the n entries with the greatest values, greatest
+// first, each with its own key; n larger than the collection keeps everything. The real
+// top, the array collection and the standard library's container/heap are executed.
+func verifLemma_C24_top_three_of_five() {
+	c := b6.ArrayCollection[any, any]{Keys: []any{10, 11, 12, 13, 14}, Values: []any{3, 1, 5, 2, 4}}.Collection()
+	r, err := top(nil, c, 3)
+	verifrt.Assert(err == nil, "top-succeeds")
+	a, ok := r.AnyCollection.(b6.ArrayCollection[any, any])
+	verifrt.Assert(ok && len(a.Keys) == 3 && len(a.Values) == 3, "three-entries")
+	verifrt.Assert(a.Values[0].(int) == 5 && a.Keys[0].(int) == 12, "greatest-first")
+	verifrt.Assert(a.Values[1].(int) == 4 && a.Keys[1].(int) == 14, "second")
+	verifrt.Assert(a.Values[2].(int) == 3 && a.Keys[2].(int) == 10, "third")
+}
+
+func verifLemma_C24_top_more_than_there_are() {
+	c := b6.ArrayCollection[any, any]{Keys: []any{7, 8}, Values: []any{1, 2}}.Collection()
+	r, err := top(nil, c, 5)
+	verifrt.Assert(err == nil, "top-succeeds")
+	a, ok := r.AnyCollection.(b6.ArrayCollection[any, any])
+	verifrt.Assert(ok && len(a.Keys) == 2 && len(a.Values) == 2, "two-entries")
+	verifrt.Assert(a.Values[0].(int) == 2 && a.Keys[0].(int) == 8 && a.Values[1].(int) == 1 && a.Keys[1].(int) == 7, "all-kept-in-order")
+}
